@@ -568,7 +568,40 @@ def r10_span_provenance(c, facts, rule='C11.R10'):
     c.floor(R, 'Span::new call sites', n, 12)
 
 
+def r11_eoi_contained(c, facts, rule='C11.R11'):
+    """the end-of-input span `end..end+1` counts from the end of the last *token*; when untokenizable characters follow
+    it, that position lies inside the text, possibly inside a multi-byte character.  Errors of productions (which may carry
+    that span) therefore leave `oal_syntax::parse` only as the error of parse_program itself; what parse reports for an
+    unparsed rest is the span of a valid cursor."""
+    R = c.rule(rule, 'EOI-CONTAINED: the errors parse() hands out come from the lexer, from parse_program as a whole, or are built on a valid cursor')
+    pf = c.anchor(R, 'oal_syntax::parse')
+    idx = MF.defs_index(pf)
+    n = 0
+    leaks = set()
+    for b, t in P.call_blocks(pf, 'Vec::push'):
+        if 'errors::Error' not in (t['args'][0].get('ty', '') if t['args'] else '') or len(t['args']) < 2 or 'l' not in t['args'][1]:
+            continue
+        n += 1
+        sl = MF.slice_back(pf, t['args'][1]['l'], idx)
+        for name, ct, cb in sl['calls']:
+            info = callee_of(ct)
+            d = P.strip(name)
+            last = d.split('::')[-1]
+            if (info or {}).get('crate', '').startswith('oal_') or d.startswith('parser::') or d.startswith('oal_'):
+                if last in ('new', 'span', 'head', 'from', 'into', 'parse_program', 'tokenize', 'is_valid', 'tree', 'finalize', 'as_ref') or d.endswith('Context::new'):
+                    continue
+                leaks.add(last)
+            elif last in ('err', 'unwrap_err', 'expect_err', 'max_by_key', 'filter_map', 'find_map', 'unwrap_or_else') and any('ParserError' in (a.get('ty') or '') or 'ParserError' in (ct['dest'].get('ty') or '') for a in ct['args']):
+                leaks.add(last)
+    c.floor(R, 'errors pushed by oal_syntax::parse', n, 1)
+    if leaks:
+        c.bad(R, 'parse:production-error-leaves-parse:%s' % ','.join(sorted(leaks)), 'oal_syntax::parse reports an error obtained from %s: errors of single productions can carry the end-of-input span `end..end+1` counted from the last token, which lies inside the text (and can end inside a multi-byte character) when untokenizable characters follow' % sorted(leaks))
+    else:
+        c.ok(R, {'parse': 'reports lexer errors, its own error on a valid cursor, or the error of parse_program', 'pushes': n})
+
+
 def run(c, facts):
+    c.run(r11_eoi_contained, facts)
     c.run(r10_span_provenance, facts)
     import c16
     c.run(r8_diag_span, facts)
